@@ -127,7 +127,7 @@ Definition mon (m : mstate) (e o : list N) : mstate * list (nat * nat) :=
     match e with
     | 1 :: _ =>
       let '(lo, hi) := bo_range p cur in
-      let m' := MExpo p (incr (p_max p) (p_mult p) cur) start now false in
+      let m' := MExpo p (grow (p_max p) (p_mult p) cur) start now false in
       match o with
       | [0] => (m', fails [(21%nat, negb (p_maxel p =? 0));
                            (24%nat, (p_maxel p =? 0) || (p_maxel p <? (now - start) + hi))])
